@@ -57,7 +57,7 @@ def enumerate_faults(cols: dict, roots: list, types: dict) -> list:
         if c.endswith("_hh") and c in types:
             for i in range(n):
                 if sizes[hh[i]] >= 2:
-                    for d in ("up", "down") if types[c] is not bool else ("flip",):
+                    for d in ("up", "down", "nan") if types[c] is float else ("up", "down") if types[c] is not bool else ("flip",):
                         faults.append({"cls": "F5", "col": c, "row": i, "dir": d})
     for i in range(n):
         if cols["p_id_ehepartner"][i] >= 0:
@@ -140,7 +140,9 @@ def apply_fault(df, fault: dict, types: dict):
     if cls == "F5":
         c, i = fault["col"], fault["row"]
         cur = df[c].iloc[i]
-        if fault["dir"] == "flip":
+        if fault["dir"] == "nan":
+            new = float("nan")  # one member's value is missing while the others carry a number
+        elif fault["dir"] == "flip":
             new = not bool(cur)
         elif types[c] is int:
             new = int(cur) + (1 if fault["dir"] == "up" else -1)
@@ -465,6 +467,8 @@ def explore(run_seed: int, cfg: dict) -> dict:
             annotated = {n for n, fn in functions.items() if "return" in getattr(fn, "__annotations__", {})} if isinstance(functions, dict) else set()
             inter = full[1][[c for c in full[1].columns if c not in config.DEFAULT_TARGETS and c in annotated]]
             variants += override_variants(inter, r, cfg.get("var_override", 2))
+    if variants:
+        variants.append({**variants[0], "repeat": True})  # the same converted table again: announced again?
     for v in variants:
         verdict, info = judge_variant(df, v, base, params, functions)
         out["evaluated"] += 1
@@ -577,5 +581,11 @@ def replay_case(case: dict) -> dict:
         res = compare.run_call(data, params, functions)
         return {"violated": res[0] != "exc", "outcome": res[0] if res[0] != "exc" else f"{res[1]}: {res[2][:200]}"}
     base = compare.run_call(df, params, functions)
-    verdict, info = judge_variant(df, case["variant"], base, params, functions)
-    return {"violated": verdict != "ok", "outcome": f"{verdict}: {info}"}
+    # every call must be value-neutral and announce its conversions - also a repeated one
+    outcomes = []
+    for _ in range(2):
+        verdict, info = judge_variant(df, case["variant"], base, params, functions)
+        outcomes.append(f"{verdict}: {info}")
+        if verdict != "ok":
+            return {"violated": True, "outcome": "; ".join(outcomes)}
+    return {"violated": False, "outcome": "; ".join(outcomes)}
